@@ -400,6 +400,11 @@ PROPS["C15"] = {
         ("R-TYPESTATE", rmb.rule_typestate, {}),
         ("R-FN-RESULT-STICKY", rmb.rule_fn_result_sticky, {}),
         ("R-BUILD-GUARDS", rmb.rule_build_guards, {}),
+        # "exactly one partial derivative for each of them and for no other name": the key a derivative is stored under is the
+        # model index of the NAMED parameter, which must be one the function lists
+        ("R-DERIV-KEY", rm.rule_deriv_key, {}),
+        # "otherwise it returns an error": no builder method panics on a defective specification
+        ("R-PANIC-SITES", _panic_sites, {"scope": "model-builder"}),
     ],
     "explanation": "Typestate transition table of SeparableModelBuilder, obtained by evaluating every public method once per state with `self` a symbolic aggregate of that state (helpers, closures and self-delegation inlined, matches on known variants partially evaluated), equals the reviewed table: errors are sticky with payload unchanged, "
                    "derivatives attach only directly after a function, every other call first finalises the pending function; the function builder's recorded result is only ever overwritten with Err; "
